@@ -12,6 +12,7 @@
 #include <qremote/qremote.h>
 #include <qremote/starttlsr.h>
 #include <qdns_dane.h>
+#include <tls.h>
 
 #include <errno.h>
 #include <syslog.h>
@@ -30,6 +31,11 @@ quitmsg_if_net(const int error)
 	case -ETIMEDOUT:
 		close(socketd);
 		socketd = -1;
+		/* the TLS session must not be used for the next host */
+		if (ssl != NULL) {
+			ssl_free(ssl);
+			ssl = NULL;
+		}
 		break;
 	default:
 		quitmsg();
